@@ -271,6 +271,10 @@ func buildHarness(c *Check, work string) (string, error) {
 	if c.Race {
 		args = append(args, "-race")
 	}
+	if os.Getenv("VERIF_COVER") != "" {
+		// coverage survey (tools/coverage.sh): which statements of the repository the check's enumeration reaches
+		args = append(args, "-cover", "-coverpkg=github.com/bio-routing/bio-rd/...")
+	}
 	args = append(args, "./"+c.Pkg)
 	cmd := exec.Command("go", args...)
 	cmd.Dir = repoRoot
@@ -300,6 +304,9 @@ func runShard(c *Check, bin, work, tier string, shard, n int, replay string, bud
 		mem = 0 // the race runtime reserves huge virtual ranges
 	}
 	sh := fmt.Sprintf("exec %q -test.run '^%s$' -test.timeout %ds -test.count 1", bin, c.Run, int(hard.Seconds())+60)
+	if d := os.Getenv("VERIF_COVER"); d != "" && replay == "" {
+		sh += fmt.Sprintf(" -test.coverprofile %q", filepath.Join(d, fmt.Sprintf("%s.%d.cov", c.ID, shard)))
+	}
 	if mem > 0 {
 		sh = fmt.Sprintf("ulimit -v %d; ", mem*1024) + sh
 	}
